@@ -156,7 +156,7 @@ example : ([47, 42] : Bytes)[0]? = some 47 ∧ ([47, 42] : Bytes)[0 + 1]? = some
 theorem lex_open_soydoc :
     lexAll [47, 42, 42] false = .items [⟨.tSoyDocStart, 3, [47, 42, 42]⟩, ⟨.tError, 0, [4]⟩] := by
   simp [lexAll, Lex.fuelFor, run, step, lexText, lexTextLoop, lexSoyDoc, lexSoyDocLoop, Lexer.next, initLexer, Lexer.len,
-    decodeRune, byteAt, maybeEmitText, Lex.errorfAt, eof, clsSoyDoc, Lexer.emit, sliceOf]
+    decodeRune, byteAt, maybeEmitText, Lex.errorfAt, eof, clsSoyDoc, Lexer.emit, sliceOf, Lexer.peek, Lexer.backup]
 
 example := (lex_error_at_construct_start [47, 42, 42] false _ ⟨.tError, 0, [4]⟩ lex_open_soydoc rfl rfl).2.2.2 rfl
 -- (the classes "unclosed tag", "unclosed literal" and "…scanning string" are exercised by the
